@@ -4,4 +4,5 @@ u=$1; repo=${2:-/repo}
 mkdir -p /verif/build/dev
 ${VX:-/verif/tools/vx/target/release/vx} $repo /verif/units/$u /verif/prelude /verif/build/dev/$u.rs /verif/build/dev/$u.map.json || exit 3
 rl=$(python3 -c "import json;print(json.load(open('/verif/units/$u/unit.json')).get('rlimit',30))")
-cd /verif/build/dev && verus $u.rs --rlimit $rl --multiple-errors 20 --time 2>&1 | grep -v "^note: \|^$" | head -${VU_LINES:-100000}
+so=$(python3 -c "import json;print(' '.join('--smt-option '+o for o in json.load(open('/verif/units/$u/unit.json')).get('smt_options',[])))")
+cd /verif/build/dev && verus $u.rs $so --rlimit $rl --multiple-errors 20 --time 2>&1 | grep -v "^note: \|^$" | head -${VU_LINES:-100000}
